@@ -1036,9 +1036,14 @@ class Executor(Engine):
             raise OutOfSubset(f'{qual} is a generator; contract `returns` must be Bag[..]')
         # parameters
         argnames = [a.arg for a in fnode.args.args]
-        if fnode.args.kwarg or fnode.args.kwonlyargs:
-            raise OutOfSubset('**kwargs / keyword-only parameters')
-        if fnode.args.vararg:
+        if fnode.args.kwarg:
+            raise OutOfSubset('**kwargs')
+        # keyword-only parameters are parameters like the others; *args is the list of the extra positional arguments when the contract
+        # types it (a List[..] entry under its name in `params`)
+        argnames += [a.arg for a in fnode.args.kwonlyargs]
+        if fnode.args.vararg and fnode.args.vararg.arg in c.params:
+            argnames.append(fnode.args.vararg.arg)
+        elif fnode.args.vararg:
             # *args is accepted only if the body merely forwards it to super().__init__ (dropped by extraction, see st_Expr)
             uses = [n for n in _preorder(fnode) if isinstance(n, ast.Name) and n.id == fnode.args.vararg.arg]
             fw = [n for n in _preorder(fnode) if isinstance(n, ast.Call) and ast.unparse(n.func) == 'super().__init__']
